@@ -13,6 +13,30 @@ def run(run):
                 'columns), stratified random, wide/tall; observable: multiset of (extent, intent) over iter(lattice), len(lattice); '
                 'a case = one context; non-trivial = not 1x1 and not constant')
     d = run.driver
+    # sizes beyond the thresholds at which an implementation may switch strategy: > 1000 concepts, > 50000 cells
+    from concepts import Context
+    with guard(run, 'Boolean lattice of the 10 x 10 contranominal scale', ['contranominal 10']):
+        N = 10
+        objs = ['g%d' % i for i in range(N)]
+        props = ['m%d' % j for j in range(N)]
+        big = Context(objs, props, [tuple(i != j for j in range(N)) for i in range(N)])
+        got = [(frozenset(c.extent), frozenset(c.intent)) for c in big.lattice]
+        want = {(frozenset(o for k, o in enumerate(objs) if (mask >> k) & 1), frozenset(p for k, p in enumerate(props) if not (mask >> k) & 1))
+                for mask in range(1 << N)}
+        if len(got) != 1 << N or set(got) != want or len(big.lattice) != 1 << N:
+            run.fail('concepts of the 10 x 10 contranominal scale', [len(got), len(set(got))], [1 << N, 1 << N], ['contranominal 10'])
+        run.case('contranominal 10', True, {'context': '10 x 10 contranominal', 'concepts': 1 << N})
+    with guard(run, 'a 600 x 100 table (60000 cells)', ['nominal 600 x 100']):
+        n_, m_ = 600, 100
+        objs = ['g%d' % i for i in range(n_)]
+        props = ['m%d' % j for j in range(m_)]
+        wide = Context(objs, props, [tuple(j == i % m_ for j in range(m_)) for i in range(n_)])
+        got = sorted((len(c.extent), len(c.intent)) for c in wide.lattice)
+        want = sorted([(0, m_), (n_, 0)] + [(n_ // m_, 1)] * m_)
+        if got != want or wide.extension([props[7]]) != tuple(o for i, o in enumerate(objs) if i % m_ == 7):
+            run.fail('concepts of the 600 x 100 nominal table', got[:6], want[:6], ['nominal 600 x 100'])
+        run.case('nominal 600 x 100', True, {'context': '600 x 100 nominal', 'concepts': m_ + 2})
+    run.count('size-threshold contexts', 2)
     for tab, pc in lat.contexts(run, exh_quick=10, rand_quick=600, wide_quick=40, exh_thorough=14, nmax=10, mmax=10):
         if min(pc.n, pc.m) > 12:
             continue
